@@ -26,7 +26,7 @@ pub fn pool() -> Vec<(String, V)> {
         V::Date(2020, 2, 29), V::Date(2020, 3, 1),
         V::DateTime("2020-02-29 12:00:00 +0000".into()), V::DateTime("2020-02-29 17:30:00 +0530".into()), V::DateTime("2020-02-29 00:00:00 +0000".into()), V::DateTime("2020-03-01 01:00:00 +1400".into()),
         V::Empty, V::Blank,
-        V::Arr(vec![]), V::Arr(vec![V::Int(1)]), V::Arr(vec![V::Float(1.0)]), V::Arr(vec![V::Int(1), V::Int(2)]), V::Arr(vec![V::Int(2), V::Int(1)]), V::Arr(vec![V::Nil]), V::Arr(vec![V::s("a"), V::Int(1)]),
+        V::Arr(vec![]), V::Arr(vec![V::Int(1)]), V::Arr(vec![V::Float(1.0)]), V::Arr(vec![V::Float(f64::NAN)]), V::obj(&[("k", V::Float(f64::NAN))]), V::Arr(vec![V::Int(1), V::Int(2)]), V::Arr(vec![V::Int(2), V::Int(1)]), V::Arr(vec![V::Nil]), V::Arr(vec![V::s("a"), V::Int(1)]),
         V::Arr(vec![V::Arr(vec![V::Int(1)]), V::Arr(vec![])]), V::Arr(vec![V::obj(&[("k", V::Int(1))])]),
         V::Obj(vec![]), V::obj(&[("k", V::Int(1))]), V::obj(&[("k", V::Float(1.0))]), V::obj(&[("k", V::Int(2))]), V::obj(&[("j", V::Int(1))]), V::obj(&[("k", V::Nil)]),
         V::obj(&[("k", V::Int(1)), ("j", V::Int(2))]), V::obj(&[("j", V::Int(2)), ("k", V::Int(1))]),
@@ -111,9 +111,11 @@ fn laws(report: &Report, pool: &[(String, V)]) {
                 let s_ab = surfaces(&la, &lb);
                 let s_ba = surfaces(&lb, &la);
                 let s_a2b = surfaces(&la2, &lb);
-                (s_ab, s_ba, s_a2b, la == la, la == la2, la.partial_cmp(&la2))
+                // the very same instance on both sides: the outcome may not differ from two separately built equal values
+                let s_same = if ai == bi { Some(surfaces(&la, &la)) } else { None };
+                (s_ab, s_ba, s_a2b, la == la, la == la2, la.partial_cmp(&la2), s_same)
             });
-            let (s_ab, s_ba, s_a2b, refl, refl2, cmp_aa2) = match r {
+            let (s_ab, s_ba, s_a2b, refl, refl2, cmp_aa2, s_same) = match r {
                 Err(pi) => {
                     report.violation(&format!("C11|{}", pi.sig()), i, w(), pi.describe());
                     return;
@@ -128,6 +130,13 @@ fn laws(report: &Report, pool: &[(String, V)]) {
             }
             if i % 7 == 0 {
                 report.outcome(&(eq, code(cmp)));
+            }
+            if let Some(same) = &s_same {
+                for ((nm, e, c), (_, e2, c2)) in same.iter().zip(s_ab.iter()) {
+                    if e != e2 || c != c2 {
+                        bad("same-instance-differs-from-equal-copy", format!("{nm}: a ? a (one instance) gives eq={e} cmp={c:?}, a ? a' (separately built) gives eq={e2} cmp={c2:?}"));
+                    }
+                }
             }
             // all API surfaces agree
             for (nm, e, c) in &s_ab {
